@@ -108,6 +108,21 @@ def run(ctx):
         for (n, c) in v.calls(lambda c: isinstance(c.func, ast.Attribute) and c.func.attr == "release"):
             ctx.violation("R19.1", enter.qualname, c, loc(enter, c), "__enter__ releases the lock")
 
+    # ---------------- R19.5: the lock file is never removed (a waiter would lock an unlinked inode)
+    ctx.rule("R19.5", "the lock file itself is never deleted or renamed")
+    lock_mod = prog.find_module("schema.hed_cache_lock")
+    n_rm = 0
+    for fi in [f for f in prog.functions.values() if f.module is lock_mod or f.module in mods]:
+        for c in walk_no_nested(fi.node):
+            if isinstance(c, ast.Call) and (dotted(c.func) or "") in ("os.remove", "os.unlink", "os.rename", "os.replace", "shutil.move") \
+                    or (isinstance(c, ast.Call) and call_name(c) == "unlink"):
+                n_rm += 1
+                if "lock" in norm(c).lower():
+                    ctx.violation("R19.5", fi.qualname, c, loc(fi, c),
+                                  "the lock file is removed/renamed: a process already waiting on the old file locks an unlinked "
+                                  "inode while a newcomer creates and locks a fresh file — two holders overlap")
+    ctx.ok("R19.5", "%d remove/rename calls in the cache modules, none targets the lock file" % n_rm, "")
+
     # ---------------- R19.2
     n_sinks = 0
     writers = set()
@@ -135,7 +150,48 @@ def run(ctx):
                           "in this function: an interruption leaves a partially written file under a name readers "
                           "use" % (kind, dkey, dkey),
                           desc="%s: %s to temporary %s then os.replace" % (fi.short, kind, dkey))
-    ctx.floor("R19.2", "file-write sinks in cache modules", n_sinks, 3)
+    ctx.floor("R19.2", "file-write sinks in cache modules", n_sinks, 2)
+    # a helper that derives its temporary name from the *basename of its source argument* is atomic only when callers
+    # hand it a temporary file: an installed schema has the same basename as its final cache name
+    for m in mods:
+        for fi in [f for f in prog.functions.values() if f.module is m]:
+            sinks = write_sinks(fi)
+            if not sinks or fi.name in EXEMPT_WRITERS:
+                continue
+            from sa.dataflow import ReachingDefs, depends_on
+            rdf = ReachingDefs(fi)
+            for call, dest, kind in sinks:
+                # which parameter supplies the *file-name part* of the destination?
+                name_param = None
+                dd = rdf.at(call, dest.id) if isinstance(dest, ast.Name) else None
+                for d in dd or []:
+                    if d.kind == "assign" and isinstance(d.value, ast.Call) and call_name(d.value) == "join" and d.value.args:
+                        last = d.value.args[-1]
+                        if isinstance(last, ast.Name):
+                            for d2 in rdf.at(d.node, last.id) or []:
+                                src = d2.value
+                                if d2.kind == "unpack" and d2.index == 1 and isinstance(src, ast.Call) and call_name(src) == "split":
+                                    name_param = [x.id for x in ast.walk(src) if isinstance(x, ast.Name) and x.id in fi.params()]
+                                elif d2.kind == "assign" and isinstance(src, ast.Call) and call_name(src) == "basename":
+                                    name_param = [x.id for x in ast.walk(src) if isinstance(x, ast.Name) and x.id in fi.params()]
+                for pi, pn in enumerate(fi.params()):
+                    if name_param and pn in name_param:
+                        for k, caller, cn in cg.callers.get(fi, []):
+                            if k not in ("precise", "name") or not isinstance(cn, ast.Call):
+                                continue
+                            arg = cn.args[pi] if pi < len(cn.args) else None
+                            for kw in cn.keywords:
+                                if kw.arg == pn:
+                                    arg = kw.value
+                            rdc = ReachingDefs(caller)
+                            ok = arg is not None and depends_on(rdc, arg, cn, lambda x: isinstance(x, ast.Call) and call_name(x) in (
+                                "url_to_file", "mkstemp", "mktemp", "NamedTemporaryFile", "TemporaryDirectory", "mkdtemp"))
+                            ctx.count_sites()
+                            ctx.check(ok, "R19.2", caller.qualname, cn, loc(caller, cn),
+                                      "%s names its temporary file after the basename of `%s`; this caller passes `%s`, which is "
+                                      "not a temporary file, so the 'temporary' name can equal the final name and the file is "
+                                      "written in place" % (fi.short, pn, norm(arg)[:40] if arg is not None else "?"),
+                                      desc="%s receives a temporary file from %s" % (fi.short, caller.short))
 
     # ---------------- R19.3
     # propagate "must hold the lock" from writers up the call graph until a `with CacheLock` encloses the call
